@@ -49,7 +49,7 @@ def evaluate(case):
 @st.composite
 def random_cases(draw):
     alg = draw(st.sampled_from(ALGS))
-    pres = draw(st.sampled_from(["list", "list", "list", "array", "dict-str", "dict-int", "names", "names-array"]))
+    pres = draw(st.sampled_from(["list", "list", "list", "array", "dict-str", "dict-int", "names", "names-array", "dict-mixed"]))
     nseed = draw(st.integers(0, 5))
     if alg in ("greedy", "roundrobin"):
         k = draw(S.bin_counts(1, 6))
